@@ -17,9 +17,14 @@ From Verif Require Import Base.Prelude Base.Str Base.Float Base.GoVal
   Proofs.C12Schema Proofs.C12Value.
 Open Scope string_scope.
 
-(* ---------- keys that can be read as the same key ---------- *)
+(* ---------- keys that can be read as the same key ----------
+   Ub: the units under which an int-keyed map of the schema reads its keys (Schema: `map_key_units Ub e s`,
+   Proofs/C12ResultUnser.v).  `fun _ => true` quantifies over every units definition. *)
+Section KC.
+Context {Ub : option units -> bool}.
+
 Definition kc (k1 k2 : gval) : Prop :=
-  (exists u z, int_mapper u k1 = Some z /\ int_mapper u k2 = Some z) \/
+  (exists u z, Ub u = true /\ int_mapper u k1 = Some z /\ int_mapper u k2 = Some z) \/
   (exists s, string_mapper k1 = Some s /\ string_mapper k2 = Some s) \/
   (exists z, conv_int64 k1 = Some z /\ conv_int64 k2 = Some z) \/
   (exists s, conv_string k1 = Some s /\ conv_string k2 = Some s) \/
@@ -28,7 +33,7 @@ Definition kc (k1 k2 : gval) : Prop :=
 Lemma kc_sym k1 k2 : kc k1 k2 -> kc k2 k1.
 Proof.
   intros [H|[H|[H|[H|H]]]].
-  - left. destruct H as (u & z & H1 & H2). eauto.
+  - left. destruct H as (u & z & Hu & H1 & H2). exists u, z. auto.
   - right; left. destruct H as (s & H1 & H2). eauto.
   - right; right; left. destruct H as (z & H1 & H2). eauto.
   - right; right; right; left. destruct H as (s & H1 & H2). eauto.
@@ -363,14 +368,14 @@ Lemma sel_tstr_kc k1 k2 s : sel_tstr k1 = Some s -> sel_tstr k2 = Some s -> kc k
 Proof.
   destruct k1 as [| | | |t1 s1| | | | | |]; try discriminate. destruct t1; try discriminate.
   destruct k2 as [| | | |t2 s2| | | | | |]; try discriminate. destruct t2; try discriminate.
-  cbn. intros [= ->] [= ->]. right; left. exists s. split; reflexivity.
+  cbn [sel_tstr]. intros [= ->] [= ->]. right; left. exists s. split; reflexivity.
 Qed.
 
 Lemma sel_str_kc k1 k2 s : sel_str k1 = Some s -> sel_str k2 = Some s -> kc k1 k2.
 Proof.
   destruct k1 as [| | | |t1 s1| | | | | |]; try discriminate.
   destruct k2 as [| | | |t2 s2| | | | | |]; try discriminate.
-  cbn. intros [= ->] [= ->]. right; right; right; left. exists s. split; reflexivity.
+  cbn [sel_str]. intros [= ->] [= ->]. right; right; right; left. exists s. split; reflexivity.
 Qed.
 
 Lemma raw_by_nodup_k (sel : gval -> option string) :
@@ -395,21 +400,22 @@ Lemma f2_qk (kvs kvs1 : list (gval * gval)) :
   Forall2 (fun a b => perm_val (fst a) (fst b) /\ Qk (snd a) (snd b)) kvs kvs1.
 Proof.
   induction 1 as [|a b l l1 [Hk Hv] _ IH]; intros H; constructor.
-  - inversion H as [|? ? [_ H1] _]; subst. split; [exact Hk | split; [exact Hv | exact H1]].
+  - inversion H as [|? ? Hh Ht]; subst. destruct Hh as [_ H1]. split; [exact Hk | split; [exact Hv | exact H1]].
   - apply IH. now inversion H.
 Qed.
 
 Lemma raw_by_lookup_k (sel : gval -> option string) :
   (forall k1 k2 s, sel k1 = Some s -> sel k2 = Some s -> kc k1 k2) ->
   (forall x y, perm_val x y -> sel x = sel y) ->
-  forall kvs kvs1 kvs' k, kfree (VMap TAny false kvs) -> Forall2 Q0 kvs kvs1 -> Permutation kvs1 kvs' ->
+  forall kvs kvs1 kvs' k, pw knc kvs -> Forall (fun kv => kfree (fst kv) /\ kfree (snd kv)) kvs ->
+  Forall2 Q0 kvs kvs1 -> Permutation kvs1 kvs' ->
   match alookup k (raw_by sel kvs), alookup k (raw_by sel kvs') with
   | Some x, Some y => Qk x y
   | None, None => True
   | _, _ => False
   end.
 Proof.
-  intros Hsel Hleaf kvs kvs1 kvs' k Hk HF HP. apply kfree_map in Hk. destruct Hk as [Hpw Hall].
+  intros Hsel Hleaf kvs kvs1 kvs' k Hpw Hall HF HP.
   apply (rel_alookup Qk k (raw_by sel kvs) (raw_by sel kvs1) (raw_by sel kvs')).
   - now apply raw_by_nodup_k.
   - apply (raw_by_f2 sel Hleaf Qk). now apply f2_qk.
@@ -446,12 +452,15 @@ Proof.
     [apply res_rel_eq; reflexivity| | | |]; cbn [any_conv kind_of].
   - (* slices *)
     destruct (kind_of_type t) as [| |ki| | | | | | | | |]; try destruct ki; try (apply res_rel_notok_l; reflexivity).
+    cbv beta iota.
     apply res_rel_bind. intros ys ys' H1 H2 r r' Hr Hr'. inversion Hr; inversion Hr'; subst. apply pv_slice.
     apply kfree_slice in Hk. rewrite Forall_forall in Hk.
-    apply (mapMi_f2_rel perm_val perm_val _ _ l l' HF) with (i := 0%Z) (ys := ys) (ys' := ys'); [|exact H1 | exact H2].
+    apply (mapMi_f2_rel perm_val perm_val (fun i x => seg (idx_seg i) (any_conv f x)) (fun i x => seg (idx_seg i) (any_conv f x)) l l' HF)
+      with (i := 0%Z) (ys := ys) (ys' := ys'); [|exact H1 | exact H2].
     intros j x x' y y' Hin Hx Hy Hy'. apply seg_ok in Hy. apply seg_ok in Hy'. exact (IH x x' Hx (Hk x Hin) y y' Hy Hy').
   - (* maps *)
     destruct (kind_of_type t) as [| |ki| | | | | | | | |]; try destruct ki; try (apply res_rel_notok_l; reflexivity).
+    cbv beta iota.
     apply res_rel_bind. intros rs rs' H1 H2 r r' Hr Hr'. inversion Hr; inversion Hr'; subst.
     apply (fold_set2 (fun kv => seg (mkey_seg (fst kv)) (any_conv f (fst kv)))
                      (fun kv k' => seg (mval_seg k') (any_conv f (snd kv)))) in H1.
@@ -466,10 +475,14 @@ Proof.
       split; [exact (IH _ _ Hxk Hfk _ _ Hg1 Hg1') | exact (IH _ _ Hxv Hfv _ _ Hg2 Hg2')].
     + intros x y p q [Hg1 _] [Hg2 _] Hn. cbv beta in *. apply seg_ok in Hg1. apply seg_ok in Hg2. unfold kd.
       destruct (key_eqb (fst p) (fst q)) eqn:E1.
-      { exfalso. apply Hn. right; right; right; right. exists f, (fst p), (fst q). auto. }
+      { exfalso. apply Hn. right; right; right; right. exists f, (fst p), (fst q).
+        split; [exact Hg1|]. split; [exact Hg2|]. left; exact E1. }
       destruct (key_eqb (fst q) (fst p)) eqn:E2; [|split; reflexivity].
-      exfalso. apply Hn. right; right; right; right. exists f, (fst p), (fst q). auto.
+      exfalso. apply Hn. right; right; right; right. exists f, (fst p), (fst q).
+      split; [exact Hg1|]. split; [exact Hg2|]. right; exact E2.
   - (* pointers: never converted *)
     destruct (kind_of_type t) as [| |ki| | | | | | | | |]; try destruct ki; apply res_rel_notok_l; reflexivity.
   - destruct (kind_of_type t) as [| |ki| | | | | | | | |]; try destruct ki; apply res_rel_notok_l; reflexivity.
 Qed.
+
+End KC.
